@@ -21,12 +21,14 @@ import (
 // race detector sees is the per-object Put -> Get edge sync.Pool also gives.
 type Pool struct {
 	New   func() interface{}
-	items [poolCap]poolItem
+	items []poolItem
 	n     int
 	reg   bool
+	quiet bool
 }
 
 const poolCap = 32
+const quietPoolCap = 16384 // per-instruction pools: must be able to hold a whole released program
 
 type poolItem struct {
 	v  interface{}
@@ -46,6 +48,8 @@ var PoolPoison = true
 
 // PoolMissPct is the probability (percent) of a forced miss on a non-empty pool.
 var PoolMissPct = 15
+
+var quietHB sync.Mutex // quiet pools share one happens-before token (sync.Pool's own race model is as coarse)
 
 var allPools [128]*Pool
 var nPools int
@@ -77,10 +81,10 @@ func ResetPools() {
 type QuietPool struct{ P Pool }
 
 //go:norace
-func (q *QuietPool) Get() interface{} { return q.P.get() }
+func (q *QuietPool) Get() interface{} { q.P.quiet = true; return q.P.get() }
 
 //go:norace
-func (q *QuietPool) Put(x interface{}) { q.P.put(x) }
+func (q *QuietPool) Put(x interface{}) { q.P.quiet = true; q.P.put(x) }
 
 //go:norace
 func (p *Pool) Get() interface{} {
@@ -102,7 +106,7 @@ func (p *Pool) get() interface{} {
 	if p.n > 0 {
 		idx := p.n - 1
 		miss := false
-		if t != nil {
+		if t != nil && (!p.quiet || PoolStats.Gets&31 == 0) { // quiet pools: one seeded decision per 32 gets, LIFO otherwise
 			switch d := t.Draw(Faults, 100); {
 			case d >= 100-PoolMissPct:
 				miss = true
@@ -140,7 +144,14 @@ func (p *Pool) put(x interface{}) {
 	if PoolPoison {
 		poison(x)
 	}
-	if p.n == poolCap {
+	if p.items == nil {
+		if p.quiet {
+			p.items = make([]poolItem, quietPoolCap)
+		} else {
+			p.items = make([]poolItem, poolCap)
+		}
+	}
+	if p.n == len(p.items) {
 		// drop the oldest (what a GC does to the victim cache)
 		for k := 0; k+1 < p.n; k++ {
 			p.items[k] = p.items[k+1]
@@ -148,9 +159,16 @@ func (p *Pool) put(x interface{}) {
 		p.n--
 		PoolStats.Drops++
 	}
-	hb := new(sync.Mutex)
-	hb.Lock()
-	hb.Unlock()
+	var hb *sync.Mutex
+	if !p.quiet {
+		hb = new(sync.Mutex)
+		hb.Lock()
+		hb.Unlock()
+	} else {
+		hb = &quietHB
+		hb.Lock()
+		hb.Unlock()
+	}
 	p.items[p.n] = poolItem{v: x, hb: hb}
 	p.n++
 }
